@@ -13,7 +13,10 @@
 (* except Initialize, which clears them and returns to raw mode.           *)
 (***************************************************************************)
 EXTENDS Naturals, Sequences, FiniteSets, TLC
-CONSTANTS Xs, Models, NCases, FailAt, MaxLen
+CONSTANTS Xs, Models, NCases, FailAt, MaxLen,
+          Supports      \* TRUE: the objective was created with model support (it records training data and can be
+                        \* switched to a model); FALSE: the default - it records nothing, and set_model /
+                        \* get_differentials are REFUSED and must leave it exactly as it was
 VARIABLES mode, chunks, hist, lastret
 vars == <<mode, chunks, hist, lastret>>
 
@@ -21,12 +24,14 @@ Init == mode = "raw" /\ chunks = <<>> /\ hist = <<>> /\ lastret = <<"none">>
 Log(a) == hist' = Append(hist, a)
 Initialize == /\ mode' = "raw" /\ chunks' = <<>> /\ lastret' = <<"none">> /\ Log(<<"init">>)
 SetRaw == /\ mode' = "raw" /\ UNCHANGED chunks /\ lastret' = <<"none">> /\ Log(<<"raw">>)
-SetModel(m) == /\ mode' = m /\ UNCHANGED chunks /\ lastret' = <<"none">> /\ Log(<<"model", m>>)
-GetDiff == /\ UNCHANGED <<mode, chunks>> /\ lastret' = <<"diff", chunks>> /\ Log(<<"diff">>)
+SetModel(m) == IF Supports THEN /\ mode' = m /\ UNCHANGED chunks /\ lastret' = <<"none">> /\ Log(<<"model", m>>)
+               ELSE /\ UNCHANGED <<mode, chunks>> /\ lastret' = <<"refused">> /\ Log(<<"model-refused", m>>)
+GetDiff == IF Supports THEN /\ UNCHANGED <<mode, chunks>> /\ lastret' = <<"diff", chunks>> /\ Log(<<"diff">>)
+           ELSE /\ UNCHANGED <<mode, chunks>> /\ lastret' = <<"refused">> /\ Log(<<"diff-refused">>)
 NewChunks(x) == [c \in 1..((IF FailAt[x] <= NCases THEN FailAt[x] ELSE NCases + 1) - 1) |-> <<x, c>>]
 Evaluate(x) ==
   /\ UNCHANGED mode
-  /\ chunks' = IF mode = "raw" THEN chunks \o NewChunks(x) ELSE chunks
+  /\ chunks' = IF mode = "raw" /\ Supports THEN chunks \o NewChunks(x) ELSE chunks
   /\ lastret' = <<"value", x, mode>>       \* the value is a function of (x, mode) - nothing else
   /\ Log(<<"eval", x>>)
 Next == /\ Len(hist) < MaxLen
@@ -37,7 +42,9 @@ Spec == Init /\ [][Next]_vars
 GrowsOnlyInRaw == [][
    \/ chunks' = chunks
    \/ (hist' = Append(hist, <<"init">>) /\ chunks' = <<>>)
-   \/ (mode = "raw" /\ \E x \in Xs : hist' = Append(hist, <<"eval", x>>) /\ chunks' = chunks \o NewChunks(x))]_vars
+   \/ (mode = "raw" /\ Supports /\ \E x \in Xs : hist' = Append(hist, <<"eval", x>>) /\ chunks' = chunks \o NewChunks(x))]_vars
+\* without model support the objective never leaves the real equations and never records
+NoSupportIsInert == ~Supports => (mode = "raw" /\ chunks = <<>>)
 \* the recorded data is determined by the raw evaluations since the last Initialize
 RECURSIVE Expected(_, _, _)
 Expected(h, i, m) ==     \* m: mode before action i
@@ -46,7 +53,7 @@ Expected(h, i, m) ==     \* m: mode before action i
     IF a[1] = "init" THEN Expected(h, i + 1, "raw")        \* restart: handled by caller (suffix)
     ELSE IF a[1] = "raw" THEN Expected(h, i + 1, "raw")
     ELSE IF a[1] = "model" THEN Expected(h, i + 1, a[2])
-    ELSE IF a[1] = "eval" /\ m = "raw" THEN NewChunks(a[2]) \o Expected(h, i + 1, m)
+    ELSE IF a[1] = "eval" /\ m = "raw" /\ Supports THEN NewChunks(a[2]) \o Expected(h, i + 1, m)
     ELSE Expected(h, i + 1, m)
 LastInit(h) == IF \E i \in 1..Len(h) : h[i][1] = "init"
                THEN CHOOSE i \in 1..Len(h) : h[i][1] = "init" /\ \A j \in (i + 1)..Len(h) : h[j][1] # "init"
